@@ -124,6 +124,16 @@ META["C01"] = dict(
     assumptions=COMMON_ASSUME + ["a branch impedance array is open everywhere, short everywhere, or finite and non-zero everywhere"],
 )
 
+META["C15"] = dict(
+    level="proof",
+    technique="map-valued state machine with invariant (every built-in symbol stays registered with its own class) and per-operation contracts on the real registry functions, VCs from the AST discharged by z3; operation-sequence enumeration in forked interpreters as labelled bounded stand-in",
+    level_text="Proved for all registry states satisfying the invariant: register_element binds exactly the new symbol, refuses (changing nothing) exactly a symbol bound to another class, and never shadows a built-in; remove_elements refuses exactly built-in classes and otherwise only removes entries of the given class; reset makes the registry equal to the built-ins and leaves no user symbol in the private table. Histories follow by induction. What _initialize_element does to class attributes (incl. the impedance/equation consistency check), the parser's longest-match behaviour and default-parameter restoration are bounded.",
+    level_note="classes as opaque ids; _initialize_element and reset_default_parameter_values are opaque callees here; symbol validation strings not modelled",
+    explanation="Obligations from registry.py: reset, register_element, remove_elements. Bounded: all operation sequences of bounded length compared with a fresh-import snapshot.",
+    trusted_base=["pyvc symex encoding of dicts as domain/value arrays"],
+    assumptions=COMMON_ASSUME + ["_initialize_element returns (symbol, Class) and does not touch the three registry tables"],
+)
+
 NOT_BUILT = "check not built yet in this session (planned, see DESIGN.md section 3)"
 NOT_APPLICABLE = {
     "C10": "statistical calibration over an RNG distribution and heuristic optimisers: no pre/postcondition within reach of a deductive verifier implies it (DESIGN.md C10); sampling would be a different technique family",
@@ -133,4 +143,4 @@ for _p in ["C%02d" % i for i in range(1, 21)]:
     if _p not in META and _p not in NOT_APPLICABLE:
         NOT_APPLICABLE[_p] = NOT_BUILT
 
-FIX_COMMITS = ["0098309", "82df5c9", "ded46ec", "756923f", "8a458bc", "a72c860", "b452482", "d151f47", "9ae2f3a", "8b96fa1", "fbdaf29", "dfe0838", "b53b7ad", "2609bab", "9c2d0e3"]
+FIX_COMMITS = ["0098309", "82df5c9", "ded46ec", "756923f", "8a458bc", "a72c860", "b452482", "d151f47", "9ae2f3a", "8b96fa1", "fbdaf29", "dfe0838", "b53b7ad", "2609bab", "9c2d0e3", "8760cb9", "e53f4fa"]
